@@ -12,8 +12,8 @@ CLAIMED = {
   note="Assumes: chunk rotation cut (the split decision is a ghost flag; its effect is checked in C11), default cache limits (no eviction), pre-state characterisation of reachable states written in kani_support/model.rs (a too-weak characterisation could only cause a false alarm, a too-strong one hides states), BTreeMap replaced by a 4-slot sorted array, ghost file system; not covered: more than 3 live entries, multi-entry append calls, read_buffer_size, closed-chunk reads (C07).",
   tech=TECH + "differential harness against a reference model, inductive step over symbolic pre-states", ref="C01"),
  "C02": dict(
-  text="Decided by the SAT solver for all values within the bounds, on the real RaftLog::open (directory listing, Chunk::open, RecordIterator, the record codec, RaftLogStateMachine::apply, cache boundary, reopen_last_closed / OpenChunk::create): for directories of one or two chunk files holding 2..5 records of every kind (shapes concrete: vote/append/commit, append-append-truncate-reappend with any legal term, append-append-purge, a non-empty state snapshot at a non-zero offset, two chained chunks; every id, vote, payload byte and user datum symbolic, constrained to be a history the reference log accepts), the reopened store's state, live index and resident payloads equal the reference log after the same records, the healthy last chunk is reused and the journal continues at its end, on_disk_size spans the retained chunks, no file is modified; one further append after the restart agrees with the reference log and is journalled right after the replayed bytes. Thorough: the same directory opened with a one-item cache reads the evicted entry back from the closed chunk's file.",
-  note="The statement is decided by composition: (i) what a flushed store has on disk is the encoding of its accepted records in order with a state snapshot at each chunk head (C11 step harnesses, C04 for 'flushed'), (ii) the codec round-trips (C12), (iii) THIS check: replaying such files reproduces the reference state. The composition itself (write, flush, close, open in one symbolic run) is outside the bound: one real operation costs 30-60 s of symbolic execution and a flush needs the worker thread. Images are laid down byte-wise by kani_support::image (layout proved equal to the real encoder's in C12) with checksum value 0 (Hasher::update stubbed) - checksum verification itself is C09/C12. Instantiation RTypes (ids (u8,u8), payload 0..3 equal bytes, padded in memory, see DESIGN 3.5); std BufReader replaced by a pass-through reader; Config accessors answered from ghost constants; io::Error::kind() answered from ghost state (DESIGN 3.4). Bounds: <= 2 chunk files, <= 5 records per file, <= 3 live entries, 96-byte files.",
+  text="Decided by the SAT solver for all values within the bounds, on the real RaftLog::open (directory listing, Chunk::open, RecordIterator, the record codec, RaftLogStateMachine::apply, cache boundary, reopen_last_closed / OpenChunk::create): for directories of one or two chunk files holding 2..5 records of every kind (shapes concrete: vote/append/commit, append-append-truncate-reappend with any legal term, append-append-purge, a non-empty state snapshot at a non-zero offset, two chained chunks; every id, vote, payload byte and user datum symbolic, constrained to be a history the reference log accepts), the reopened store's state, live index and resident payloads equal the reference log after the same records, the healthy last chunk is reused and the journal continues at its end, on_disk_size spans the retained chunks, no file is modified; one further append after the restart agrees with the reference log and is journalled right after the replayed bytes.",
+  note="The statement is decided by composition: (i) what a flushed store has on disk is the encoding of its accepted records in order with a state snapshot at each chunk head (C11 step harnesses, C04 for 'flushed'), (ii) the codec round-trips (C12), (iii) THIS check: replaying such files reproduces the reference state. The composition itself (write, flush, close, open in one symbolic run) is outside the bound: one real operation costs 30-60 s of symbolic execution and a flush needs the worker thread. Images are laid down byte-wise by kani_support::image (layout proved equal to the real encoder's in C12) with checksum value 0 (Hasher::update stubbed) - checksum verification itself is C09/C12. Instantiation RTypes (ids (u8,u8), payload 0..3 equal bytes, padded in memory, see DESIGN 3.5); std BufReader replaced by a pass-through reader; Config accessors answered from ghost constants; io::Error::kind() answered from ghost state (DESIGN 3.4). Not covered: reading an entry back from a closed chunk's file after the restart (cache-miss path; measured out of reach, see DESIGN section 7). KNOWN FINDING reported on every run: KF-C02-id-boundary. Bounds: <= 2 chunk files, <= 5 records per file, <= 3 live entries, 96-byte files.",
   tech=TECH + "the real RaftLog::open executed on symbolic chunk-file images (concrete record shapes, symbolic values) and compared with a reference model", ref="C02"),
  "C03": dict(
   text="Recovery side, decided for all values within the bounds: on every crash image in the family of C05/C10 (complete records followed by a torn record, a zero-filled tail or nothing, in the newest chunk of one or two) the opened store's state and entries are exactly those of the complete records - a prefix of the writes issued; no partially written record becomes visible (the torn record's content is arbitrary symbolic bytes up to the cut), every record completely present before the cut is replayed (none dropped). Together with C04 (an Ok callback implies all bytes journalled before that flush are written and covered by a successful sync of their file, so they are in every later crash image) this is the statement; the composition is an argument on paper.",
@@ -66,7 +66,7 @@ CLAIMED = {
 }
 
 NA = {
- "C07": "the statement quantifies over background-worker progress (data buffered, in flight, written, synced, evicted) and concurrent readers: it needs caller/worker interleavings with real reads in between, i.e. the worker loop (verifiable only on scripted requests, C04) composed with store-level reads (each 30-60 s of symbolic execution) - out of reach as one check. Decided pieces that bear on it live under other ids: nothing above the boundary is evicted (C15), the boundary advances only after older files are synced (C04 unit harnesses), an entry evicted under a one-item cache is read back correctly from a closed chunk file after reopen (C02 thorough harness c02_two_chunks_small_cache). A violation found by reading (id-valued boundary after truncate + lower-term re-append: live entries of the OPEN chunk become evictable and unreadable) is documented in DESIGN.md section 6 with a native demonstration; it is not claimed as a check because reaching it needs worker progress between two caller operations.",
+ "C07": "the statement quantifies over background-worker progress (data buffered, in flight, written, synced, evicted) and concurrent readers: it needs caller/worker interleavings with real reads in between, i.e. the worker loop (verifiable only on scripted requests, C04) composed with store-level reads (each 30-60 s of symbolic execution) - out of reach as one check. Decided pieces that bear on it live under other ids: nothing above the boundary is evicted (C15), the boundary advances only after older files are synced (C04 unit harnesses), the restart-path instance of the id-valued boundary defect is a known finding under C02 (KF-C02-id-boundary). A violation found by reading (id-valued boundary after truncate + lower-term re-append: live entries of the OPEN chunk become evictable and unreadable) is documented in DESIGN.md section 6 with a native demonstration; it is not claimed as a check because reaching it needs worker progress between two caller operations.",
  "C14": "decided by thread lifetime and struct-field drop order (detached worker thread, _dir_lock dropped before wal): Kani has no model of std::thread, and any sequential criterion would also reject a correct join-on-drop repair.",
 }
 
